@@ -28,6 +28,8 @@ ASSUMPTIONS = [
 
 T.ALPHABETS['c12amr'] = {'concepts': ['x', 'have-mod-91'], 'roles': [':mod', ':ARG1-of', ':ARG2', ':polarity-of~1'], 'atoms': ['-', '_'], 'refs': 'all'}
 T.ALPHABETS['c12small'] = {'concepts': ['x', 'have-mod-91'], 'roles': [':mod', ':mod-of', ':ARG1-of', ':ARG1', ':ARG2', ':polarity', ':quant~e.1'], 'atoms': ['-', '7~2', '_', '_2'], 'refs': 'all+aligned0'}
+T.ALPHABETS['c12chain'] = {'concepts': ['x', 'have-mod-91'], 'roles': [':ARG1-of', ':ARG2', ':ARG1'], 'atoms': ['-'], 'refs': 'none'}
+T.ALPHABETS['c12chainq'] = {'concepts': ['x', 'have-mod-91'], 'roles': [':ARG1-of', ':ARG2'], 'atoms': ['-'], 'refs': 'none'}
 T.ALPHABETS['c12def'] = {'concepts': [T.ABSENT, 'x'], 'roles': [':r', ':r-of'], 'atoms': ['k', '_'], 'refs': 'all'}
 
 OPS = ['reify_edges', 'dereify_edges', 'reify_attributes', 'indicate_branches']
@@ -37,13 +39,14 @@ def shards(tier, seed):
     out = []
     q = tier == 'quick'
     k = 2 if q else 3
-    b = f'programs of length <= {k + 1} from TREE(2,2,2)/(3,2,3) small AMR alphabet; length <= {k} from TREE(3,3,3) AMR/MINI/DEFAULT alphabets; 5 initial variants each'
+    b = f'programs of length <= {k + 1} from TREE(2,2,2)/(3,2,3) small AMR alphabet; length <= {k} from TREE(3,3,3) AMR/MINI/DEFAULT alphabets; 5 initial variants each; length <= {1 if q else 2} from TREE(4,4,4) chains of reified nodes' + (' (2 roles; and a VERIF_SEED-chosen third of the TREE(3,3,3) AMR family)' if q else '')
     out += T.shard_list(3, 2, 3, 'c12small', extra={'sub': 'programs', 'model': 'AMR', 'k': k + 1 if not q else k, 'bounds': b})
     out += T.shard_list(2, 2, 2, 'c12small', extra={'sub': 'programs', 'model': 'AMR', 'k': k + 1, 'bounds': b})
     big = T.shard_list(3, 3, 3, 'c12amr', pin=3, extra={'sub': 'programs', 'model': 'AMR', 'k': k, 'bounds': b})
-    out += big[seed % 2::2] if q else big
+    out += big[seed % 3::3] if q else big
     out += T.shard_list(3, 2, 3, 'c12amr', extra={'sub': 'programs', 'model': 'MINI', 'k': k, 'bounds': b})
     out += T.shard_list(3, 3, 3, 'c12def', extra={'sub': 'programs', 'model': 'DEFAULT', 'k': k, 'bounds': b})
+    out += T.shard_list(4, 4, 4, 'c12chainq' if q else 'c12chain', pin=3, extra={'sub': 'programs', 'model': 'AMR', 'k': 1 if q else 2, 'bounds': b})
     return out
 
 
